@@ -16,7 +16,7 @@ import random
 
 import numpy as np
 
-from .. import fixtures, tlc, tracecheck
+from .. import behaviours, fixtures, tlc, tracecheck
 from ..common import MachineryFailure, scratch, seed
 
 SITE = "sigpyproc.io.fileio.FileReader"
@@ -248,6 +248,53 @@ def run(v) -> None:
                 st.read_block(s, k)
                 ops.append(["read_block", s, k])
         finish(st, "read_block-grid", ops)
+
+    # (R) spec -> code: TLC-generated behaviours of the abstract stream, replayed step by step ------------
+    gens = [("<<2, 0, 1>>", 2), ("<<1, 2>>", 2)] if quick else [("<<2, 0, 1>>", 3), ("<<1, 2>>", 3), ("<<3>>", 4), ("<<1, 1, 1>>", 3), ("<<0, 2, 2>>", 3)]
+    nreplayed = 0
+    for lens_s, dep in gens:
+        behs = behaviours.generate("Gen_Stream", {"GenLens": lens_s}, ["SPECIFICATION Spec", "CONSTANTS", "  Lens <- GenLens",
+                                   f"  Depth = {dep}", "INVARIANT Emit", "CHECK_DEADLOCK FALSE"], verdict=v, label=lens_s)
+        sims = behaviours.generate("Gen_Stream", {"GenLens": "<<5, 3, 0, 4>>"}, ["SPECIFICATION Spec", "CONSTANTS", "  Lens <- GenLens",
+                                   "  Depth = 12", "INVARIANT Emit", "CHECK_DEADLOCK FALSE"], simulate=f"num={40 if quick else 400}", depth=13,
+                                   verdict=v, label="simulate") if lens_s == gens[0][0] else []
+        streams = {}
+        for b in behs + sims:
+            lens = b["lens"]
+            key = tuple(lens)
+            if key not in streams:
+                st = Stream(d, f"g{len(streams)}_{nreplayed}", 8, 1, lens, rng)
+                # the generator's data: byte i of the concatenation has value i % 251
+                at = 0
+                for i, ln in enumerate(lens):
+                    raw = open(st.names[i], "rb").read()
+                    open(st.names[i], "wb").write(raw[: len(raw) - ln] + bytes((at + j) % 251 for j in range(ln)))
+                    at += ln
+                streams[key] = st
+            st = streams[key]
+            st.f.seek(0)               # every behaviour starts after one successful seek, like the model's Init
+            st.events.clear()
+            for k, step in enumerate(b["hist"]):
+                if step["op"] == "seek":
+                    st.seek(step["arg"], step["whence"])
+                elif step["op"] == "cread":
+                    st.cread(step["arg"])
+                else:
+                    st.creadinto(step["arg"])
+                e = st.events[-1]
+                got = {"outcome": e["outcome"], "pos": e["pos"], "out": e.get("out", [])}
+                exp = {"outcome": step["outcome"], "pos": step["pos"], "out": step["out"]}
+                if got != exp:
+                    v.violation("ReplayStep_" + step["op"], SITE + "." + step["op"],
+                                {"nbits": 8, "nchans": 1, "lens": lens, "ops": [[h["op"], h["arg"], h["whence"]] for h in b["hist"][: k + 1]],
+                                 "kind": "tlc-generated", "p_before": b["hist"][k - 1]["pos"] if k else 0,
+                                 "item_straddles_file_boundary": False}, got, exp)
+                    break
+            nreplayed += 1
+        for st in streams.values():
+            st.close()
+    v.traces += nreplayed
+    v.extra["tlc_generated_behaviours_replayed"] = nreplayed
 
     # validate ------------------------------------------------------------------------------------
     for t in traces:
